@@ -53,8 +53,9 @@ GROUP = dict(
     broadcast use axiom_string_of_cow;
     proof { axiom_string_from(); }
     let ghost acc0 = kvs(parts.qualifiers.qualifiers@);''',
-                rw=[('R3', r"for qualifier in s\.split\('&'\)", "let pieces = x_split(s, '&');\n    let ghost ps = split_spec(s@, '&');\n    for qualifier in it: pieces", 1),
-                    ('R3', r"qualifier\.split_once\('='\)", "x_split_once(qualifier, '=')", '*'),
+                rw=[('R3', r"for qualifier in s\.split\(('.')\)", r"let pieces = x_split(s, \1);\n    let ghost ps = split_spec(s@, \1);\n    for qualifier in it: pieces", 1),
+                    ('R3', r"qualifier\.split_once\(('.')\)", r"x_split_once(qualifier, \1)", '*'),
+                    ('R3', r"qualifier\.rsplit_once\(('.')\)", r"x_rsplit_once(qualifier, \1)", '*'),
                     ],
                 loops={0: '''
         invariant
@@ -65,7 +66,7 @@ GROUP = dict(
             parts.version == old(parts).version, parts.subpath == old(parts).subpath,
             dq_fold(ps.take(it.index@ as int), acc0) == Ok::<KV, DqErr>(kvs(parts.qualifiers.qualifiers@)),
 '''},
-                hints=[(r"if let Some\(\(k, v\)\) = x_split_once", 'before', '''        let ghost cur = parts.qualifiers.qualifiers@;
+                hints=[(r"if let Some\(\(k, v\)\) = ", 'before', '''        let ghost cur = parts.qualifiers.qualifiers@;
         proof {
             assert(qualifier@ == ps[it.index@ as int]);
             assert(ps.take(it.index@ + 1).drop_last() == ps.take(it.index@ as int));
@@ -84,15 +85,16 @@ GROUP = dict(
                 begin='''    broadcast use axiom_string_of_cow;
     proof { axiom_string_from(); }
     let ghost s0 = s@;''',
-                rw=[('R3', r's\.strip_prefix\("pkg:"\)', 'x_strip_prefix(s, "pkg:")', '*'),
-                    ('R3', r"s\.trim_start_matches\('/'\)", "x_trim_start_matches(s, '/')", '*'),
+                rw=[('R3', r's\.strip_prefix\(("[^"]*")\)', r'x_strip_prefix(s, \1)', '*'),
+                    ('R3', r"s\.trim_start_matches\(('.')\)", r"x_trim_start_matches(s, \1)", '*'),
                     ('R3', r"s\.rsplit_once\(('.')\)", r"x_rsplit_once(s, \1)", '*'),
-                    ('R3', r"s\.split_once\('/'\)", "x_split_once(s, '/')", '*'),
+                    ('R3', r"s\.split_once\(('.')\)", r"x_split_once(s, \1)", '*'),
+                    ('R3', r"s\.rsplit_once\(('.')\)", r"x_rsplit_once(s, \1)", '*'),
                     # R8: `e?` written out where the error is converted with From (the converted value matters to the contract)
-                    ('R8', r'(x_strip_prefix\(s, "pkg:"\)\.ok_or\(ParseError::UnsupportedUrlScheme\))\?', r'(match \1 { Ok(v_) => v_, Err(e_) => return Err(From::from(e_)) })', '*'),
+                    ('R8', r'(x_strip_prefix\(s, "[^"]*"\)\.ok_or\(ParseError::\w+\))\?', r'(match \1 { Ok(v_) => v_, Err(e_) => return Err(From::from(e_)) })', '*'),
                     ('R8', r'(decode_subpath\(subpath\))\?', r'(match \1 { Ok(v_) => v_, Err(e_) => return Err(From::from(e_)) })', '*'),
                     ('R8', r'(decode_qualifiers\(qualifiers, &mut parts\))\?', r'(match \1 { Ok(v_) => v_, Err(e_) => return Err(From::from(e_)) })', '*'),
-                    ('R8', r"(x_split_once\(s, '/'\)\.ok_or\(ParseError::MissingRequiredField\(PurlField::Name\)\))\?", r'(match \1 { Ok(v_) => v_, Err(e_) => return Err(From::from(e_)) })', '*'),
+                    ('R8', r"(x_r?split_once\(s, '.'\)\.ok_or\(ParseError::MissingRequiredField\(PurlField::\w+\)\))\?", r'(match \1 { Ok(v_) => v_, Err(e_) => return Err(From::from(e_)) })', '*'),
                     ('R8', r'(T::from_str\(package_type\))\?', r'(match \1 { Ok(v_) => v_, Err(e_) => return Err(From::from(e_)) })', '*'),
                     ('R8', r'(decode\(version\))\?', r'(match \1 { Ok(v_) => v_, Err(e_) => return Err(From::from(e_)) })', '*'),
                     ('R8', r'(decode_namespace\(namespace\))\?', r'(match \1 { Ok(v_) => v_, Err(e_) => return Err(From::from(e_)) })', '*'),
